@@ -7,7 +7,8 @@ interrupted inside or outside an intercepted body / discarded / capture fault / 
 discarded / force or discard requested while idle; replay ok / of a missing id / failing with a missing key after an
 output was sent / playback function raising / key-creation error / operation raising / interrupted), the environment
 values.  Oracle: after every run the recorder is idle (not recording, not replaying, no current id, force flag clear,
-in-interception flag clear), and three probe runs (a rate-0 operation, a rate-1 operation, a replay) give the same
+in-interception flag clear), and the probe runs (a replay, a rate-0 operation, a rate-1 operation, a replay, and a
+rate-1 operation directly after that replay) give the same
 cassette events, the same recorded content and the same Playback as on a FRESH recorder.
 """
 from typing import List
@@ -168,7 +169,17 @@ def _probe(tr, rig, base_id, vals, den):
               [(k, _norm(v)) for k, v in sc.outputs_as_map(pb.recorded_outputs)], res[2].journal)
     else:
         rp = ('exc', type(res[1]).__name__)
-    return [ev_a, ev_b, content, rp, _idle(tr), rp0]
+    # a recording directly after a replay (no sampled-out run in between whose finaliser would restart the per-alias
+    # numbering on the replay's behalf - seed C09-F): its stored content must be a fresh recorder's
+    n2 = len(spy.log)
+    _run_op(tr, vals, [_o('O', 1), _o('A', 1), _o('O', 1), _o('T')])      # same program as run b above
+    saved2 = [r for e, r in spy.log[n2:] if e == 'save']
+    content2 = None
+    if saved2:
+        content2 = [(k, _norm(v)) for k, v in _content(rig.inner.get_recording(saved2[0]))]
+    # absolute, not only differential (a fresh recorder's probe performs the same replay): same program, same values
+    # => same stored content as run b, which followed a finalised recording
+    return [ev_a, ev_b, content, rp, _idle(tr), rp0, content2, content2 == content]
 
 
 def history_independent(hist: List[int], vals: List[int]) -> bool:
@@ -199,7 +210,7 @@ def history_independent(hist: List[int], vals: List[int]) -> bool:
     fresh = TapeRecorder(r.cassette, random_seed=None)
     fresh.enable_recording()
     want = _probe(fresh, r, base_id, vals, den)
-    ok = ok and got == want and want[0] == ['create', 'abort'] and want[1] == ['create', 'save'] and want[4]
+    ok = ok and got == want and want[0] == ['create', 'abort'] and want[1] == ['create', 'save'] and want[4] and want[7]
     return ctx.done(ok, 'history')
 
 
